@@ -207,8 +207,8 @@ driver("C13",
 driver("C14",
        "fault-sequence monitor: reorganisations of chosen depth at chosen heights (relative to savepoint spacing), after or during an update (hook action at the n-th indexed block), consecutive and nested; oracle = masked dump equality with a from-scratch index on the new best chain, header check against the node, status flag on reported unrecoverable reorgs; a logical-step fuse on the retry loop turns non-termination into an observable event",
        "Exploration over (savepoint interval, max savepoints, commit interval, feed mode, reorg depth, tip height mod interval, during/after update): the evidence lists the (depth, height mod interval) pairs reached. 'Terminates' is restated as at most max_savepoints+6 iterations of the retry loop / rollbacks.",
-       "index with all tables (sats/addresses off in a third), savepoint interval {3,5,10}, max savepoints {1,2,3}, commit interval {1,2,5000}, blocks fed one per update / in batches / all at once; grow 2-45 blocks (70 thorough), then 1-3 reorgs of depth 1..max_savepoints*interval+4 with 1-3 extra blocks, a quarter of them landing while pending blocks of the old branch are being indexed. distinct = (interval, savepoints, commit interval, feed, depth, height mod interval, during-update).",
-       {"evaluations": 100, "updates_ok_after_reorg": 30, "equal_to_from_scratch": 30, "rollbacks_observed": 20, "unrecoverable_reported": 10, "reorgs_during_update": 10})
+       "index with all tables (sats/addresses off in a third), savepoint interval {3,5,10}, max savepoints {1,2,3}, commit interval {1,2,5000}, blocks fed one per update / in batches / all at once; grow 2-45 blocks (70 thorough), then 1-3 reorgs of depth 1..max_savepoints*interval+4 with 1-3 extra blocks, a quarter of them landing while pending blocks of the old branch are being indexed; one case in five is the 'uncommitted tail' scenario (savepoint interval 50, commit interval 5000, 36-40 pending blocks - more than the prefetch channel holds - with the switch landing among them and the fork inside the uncommitted tail in two thirds of them); half of the chains carry no rune transactions so that the in-flight update reaches the reorg handling. distinct = (interval, savepoints, commit interval, feed, depth, height mod interval, during-update).",
+       {"evaluations": 100, "updates_ok_after_reorg": 30, "equal_to_from_scratch": 30, "rollbacks_observed": 20, "unrecoverable_reported": 10, "reorgs_during_update": 10, "reorgs_during_update_with_fetcher_still_running": 20, "reorgs_inside_the_uncommitted_tail": 12})
 
 driver("C15",
        "differential monitor over configurations: one generated chain indexed under all 8 combinations of the sat / address / transaction indexes (inscriptions and runes on), with the first inscription / rune height at 0 or moved to 12..30 through hook H5 so that configurations without a full UTXO index fetch spent values from the node; projections of the inscription and rune tables compared",
